@@ -4,7 +4,12 @@
 //
 // Two modes, selected by the scenario header:
 //   "mode":"seq"   Grain = "call": one real thread, one step = one public call
-//                  (Register(timing,outcome) | Resolve(outcome) | UserResolve)
+//                  (Register(timing,outcome,context) | Resolve(outcome,context) | UserResolve)
+//                  context = where in the user's program the call happens: "plain" ordinary control flow,
+//                  "guard" in the destructor of an RAII guard during stack unwinding, "handler" inside a catch
+//                  handler (an exception outcome is the handled exception: p(std::current_exception()) /
+//                  p.unhandled_exception()), resolution only: "scope" the promise is destroyed at the end of
+//                  its scope, "local" the promise is a local destroyed by an exception leaving its scope
 //                  "ctx":"coro": the whole scenario runs INSIDE a running coroutine (ready queue active, on a
 //                  fresh thread): callback_await's helper coroutine is only queued by the call and starts /
 //                  resumes at the step Yield (co_await pause()).  "argk" says how callback_await's awaitable
@@ -19,7 +24,9 @@
 //                  FFence | FClaim(r) | FSwap(r)) and the plain code after it (PostCheck | PostCas | PostFence
 //                  | PostClaim(r) | PostSwap(r)) are separate steps.
 //
-// header: {"mode","fine","ctx","argk","ad","alloc","cv","reg","tovoid","rk":{r:outcome},"k":variant selector}
+//                  "cx":{thread:context}: the registering thread makes its call / each resolver resolves the
+//                  promise in that context (the threads park inside the guard's destructor / the handler)
+// header: {"mode","fine","ctx","argk","ad","alloc","cv","reg","tovoid","rk":{r:outcome},"cx":{thread:context},"k":variant selector}
 //   k selects among equivalent ways of writing the same scenario (how the awaited future is produced:
 //   init lambda / lambda returning a future / already resolved static future / existing future by
 //   reference; a broken promise by p(drop) or by destroying the promise)
@@ -44,6 +51,18 @@ using cocls_verif::op_t;
 
 struct TestExc { int who; };   // the awaited operation's exception
 struct ConvExc { int who; };   // thrown by the user's converter
+struct Unwind {};              // the unrelated exception that propagates / is handled around a call ("guard","handler","local")
+
+// runs f in the given execution context of the calling thread
+template <typename F>
+static void run_in_ctx(const std::string &x, F &&f) {
+    if (x == "guard") {
+        struct G { F &f; ~G() { f(); } };          // std::uncaught_exceptions() > 0 inside
+        try { G g{f}; throw Unwind{}; } catch (const Unwind &) {}
+    } else if (x == "handler") {
+        try { throw Unwind{}; } catch (const Unwind &) { f(); }
+    } else f();
+}
 
 enum Tag { T_NONE, T_VAL, T_EXC, T_DROP, T_CALLED, T_DEAD, T_OTHER };
 static const char *tag_name(Tag t) {
@@ -87,6 +106,8 @@ struct WorldBase {
     std::string pre = "none";     // outcome to deliver inside the starting function ("before" timing)
     bool use_static = false;      // ... by returning an already resolved future
     bool drop_by_dtor = false;
+    std::string cxa = "plain";    // execution context of the registering call
+    std::string cxr[3] = {"plain", "plain", "plain"};   // concurrent mode: execution context of resolver i
     int magic = 0;                // what the arguments passed in this round carry
     int badargs = 0;              // awaitables built from a destroyed / moved-from / foreign argument
     // what the user's callbacks observed (written without allocating)
@@ -263,6 +284,7 @@ struct AdapterBase {
 template <typename From>
 struct World : WorldBase {
     std::optional<cocls::promise<From>> p;
+    cocls::promise<From> *pp = nullptr;       // where the promise object lives now (null: it does not exist)
     cocls::future<From> *fut = nullptr;       // where the awaited future lives (null: unknown)
     bool fut_member = false;                  // it is a member of a persistent adapter object
     std::optional<cocls::future<From>> ext;   // awaited by reference (callback_await<future<T>&>)
@@ -275,7 +297,7 @@ struct World : WorldBase {
 
     void set_shared_words() {
         slot_addr = fut ? (const void *) &(fut->*FProbe<From>::slot_mp()) : nullptr;
-        owner_addr = p ? (const void *) &((*p).*PProbe<From>::owner_mp()) : nullptr;
+        owner_addr = pp ? (const void *) &(pp->*PProbe<From>::owner_mp()) : nullptr;
     }
 
     // the starting function received the promise: keep it (no scheduling points, nobody else knows it yet)
@@ -283,9 +305,47 @@ struct World : WorldBase {
         tl_setup++;
         if (!fut_member) fut = const_cast<cocls::future<From> *>(static_cast<const cocls::future<From> *>(pr.get_id()));
         p.emplace(std::move(pr));
+        pp = &*p;
         set_shared_words();
         tl_setup--;
-        if (pre != "none") resolve(pre, 1);   // "before": the operation completes inside the starting function
+        if (pre != "none") {                  // "before": the operation completes inside the starting function
+            resolve(pre, 1);
+            if (!p) pp = nullptr;
+        }
+    }
+
+    // the promise is never called: it lives in a scope of the resolving thread which is left normally
+    // ("scope") or by an exception ("local"); ~promise resolves the future (future.h:600-603)
+    bool drop_by_scope(bool throwing) {
+        bool valid = false;
+        try {
+            struct R { World &w; ~R() { w.pp = nullptr; w.set_shared_words(); } } r{*this};
+            tl_setup++;                       // hand-over into the scope: nobody else uses the promise
+            cocls::promise<From> local(std::move(*p));
+            pp = &local;
+            set_shared_words();
+            valid = static_cast<bool>(local);
+            tl_setup--;
+            if (throwing) throw Unwind{};
+        } catch (const Unwind &) {}
+        return valid;
+    }
+
+    // the resolution by `kind` in execution context x
+    bool resolve_ctx(const std::string &kind, int idx, const std::string &x) {
+        if (x == "scope" || x == "local") return drop_by_scope(x == "local");
+        bool r = false;
+        if (x == "handler" && kind == "exc") {
+            // the outcome is the exception being handled
+            try { throw TestExc{10 * round + idx}; }
+            catch (...) {
+                if ((k + idx) % 2 == 1) r = p->unhandled_exception();
+                else r = (*p)(std::current_exception());
+            }
+            return r;
+        }
+        run_in_ctx(x, [&] { r = resolve(kind, idx); });
+        return r;
     }
 
     bool resolve(const std::string &kind, int idx) {
@@ -345,7 +405,7 @@ struct World : WorldBase {
         if (adapter) adapter->proj(m);
         if (is_conv()) m.set("user", user);
         if (conc) {
-            m.set("owner", !p ? "none" : ((*p).*PProbe<From>::owner_mp()).verif_peek() ? "fut" : "null");
+            m.set("owner", !pp ? "none" : (pp->*PProbe<From>::owner_mp()).verif_peek() ? "fut" : "null");
             m.set("by", by);
         }
         return m;
@@ -695,6 +755,7 @@ static StepRes seq_step(World<From> &w, const Scenario &sc, Reporter &rep, std::
         w.round++;
         w.magic = 1000 + w.round;
         w.pre = st.sarg(1);
+        w.cxa = st.sarg(2);
         bool before = st.sarg(0) == "before";
         if (before != (w.pre != "none")) { rep.error(k, "bad Register arguments"); return StepRes::bad; }
         // equivalent ways of writing the scenario, chosen by the driver's variant selector
@@ -702,13 +763,14 @@ static StepRes seq_step(World<From> &w, const Scenario &sc, Reporter &rep, std::
         w.drop_by_dtor = ((w.k / 2 + w.round) % 2 == 1);
         if (!w.fut_member) w.fut = nullptr;   // the previous round's future is gone with its helper
         LibScope s(w);
-        w.adapter->reg();
+        run_in_ctx(w.cxa, [&] { w.adapter->reg(); });
         // w.pre stays: a helper whose start is deferred builds the awaitable (and resolves it) later
     } else if (st.name == "Resolve") {
         if (!w.p) { rep.diverge(k, "no promise was handed out"); return StepRes::bad; }
         w.pre = "none";
+        w.drop_by_dtor = false;   // how the promise is dropped is the step's context here
         LibScope s(w);
-        w.resolve(st.sarg(0), 1);
+        w.resolve_ctx(st.sarg(0), 1, st.sarg(1));
     } else if (st.name == "UserResolve") {
         LibScope s(w);
         w.adapter->user_resolve();
@@ -786,6 +848,7 @@ struct Conc {
             case op_t::mark: return "idle";
             case op_t::load: case op_t::conv:
                 if (has("::ready(")) return pre + "check";
+                if (e.op == op_t::load && has("~promise(")) return pre + "claim";   // ~promise: plain load of _owner
                 break;
             case op_t::cas:
                 if (has("subscribe_check_ready")) return pre + "cas";
@@ -821,7 +884,7 @@ struct Conc {
             warm_thread();
             vsched::mark("start");
             pw->acct[0].begin();
-            pw->adapter->reg();
+            run_in_ctx(pw->cxa, [pw] { pw->adapter->reg(); });
             pw->acct[0].end();
         });
     }
@@ -835,7 +898,7 @@ struct Conc {
                 tl_name = name;
                 warm_thread();
                 pw->acct[i].begin();
-                bool b = pw->resolve(*kind, i);
+                bool b = pw->resolve_ctx(*kind, i, pw->cxr[i]);
                 pw->rres[i] = b;
                 pw->rres_set[i] = true;
                 pw->acct[i].end();
@@ -847,6 +910,9 @@ struct Conc {
         setup(w, sc);
         if (!w.adapter) { rep.error(0, "unknown adapter " + w.ad); return; }
         for (auto &kv : sc.hdr.at("rk").m) rk[kv.first] = kv.second.s;
+        for (auto &kv : sc.hdr.at("cx").m) {
+            if (kv.first == "a") w.cxa = kv.second.s; else w.cxr[idx_of(kv.first)] = kv.second.s;
+        }
         sched.log_enabled = false;
         sched.no_yield = &no_yield_fn;
         sched.yield_after = w.fine;
